@@ -1,1 +1,5 @@
 import PyCraft.Props.C03
+import PyCraft.Props.C06
+import PyCraft.Props.C17
+import PyCraft.Props.C04
+import PyCraft.Props.C19
